@@ -2,6 +2,7 @@
 import itertools
 from symex.checklib import Case, run_check
 from checks import dkgcommon
+from symex import galg
 M = (1 << 64) - 1
 
 def run(tier, seed):
@@ -24,11 +25,13 @@ def run(tier, seed):
         for nh in ((1, 2, 3) if thorough else (2,)):
             for ans in (False, True):
                 cases.append(Case('jf_agree_o%d%d_h%d_a%d' % (oa, ob, nh, int(ans)), 'crypto', 'zzC07_jf_agree', [oa, ob, nh, ans]))
+    cases += dkgcommon.lemma_cases(thorough, Case)
     return run_check('C07', cases, tier, seed, setup=dkgcommon.SETUP,
-        functions=['feldmanVSSQualState handlers, timeouts and End, run as a product of two honest participants of one dealer instance'],
+        functions=['C:G2_vector_read_bytes', 'C:E2_vector_write_bytes', 'C:Fr_polynomial_image_write', 'C:E2_polynomial_images', 'C:G2_check_log', 'feldmanVSSQualState handlers, timeouts and End, run as a product of two honest participants of one dealer instance'],
         bounds={'configuration': 'n=4, t=1, Byzantine dealer 0, honest participants 1 and 2',
                 'grammar': 'vector kinds %s, private share kinds %s per participant, all four (share/vector) delivery orders, dealer answers %s per complainer; honest complaints are the ones the executed code emits and are routed to the other participant' % (vks, sks, aks),
                 'Joint-Feldman': 'n=5, t=2: two honest participants (3 and 4) observe a Byzantine participant that is disqualified as a dealer and complains against another dealer, with different interleavings across senders: same set of disqualified dealers',
-                'outside': 'Joint-Feldman key summation itself (linear in the per-dealer data), n > 5, more Byzantine messages per round, the polynomial algebra of shares (uninterpreted), network assumptions'},
-        assumptions=dkgcommon.ASSUME, trusted=dkgcommon.TRUSTED,
+                'lemmas': dkgcommon.LEMMA_BOUND,
+                'outside': 'Joint-Feldman key summation itself (linear in the per-dealer data), n > 5, more Byzantine messages per round, the polynomial algebra of shares beyond the contract lemmas, network assumptions'},
+        assumptions=dkgcommon.ASSUME, trusted=dkgcommon.TRUSTED + galg.TRUSTED,
         explanation='relational bounded symbolic execution: the real code of two honest participants is run side by side on the same broadcasts; assertions: same error class from End, same group key and public-share vector on success, nobody honest is flagged or disqualified')
